@@ -1541,9 +1541,7 @@ impl<'input, T: Input> Scanner<'input, T> {
 
         self.skip_ws_to_eol(SkipTabs::No)?;
         self.input.lookahead(1);
-        if self.input.next_is_break() || self.input.next_is_flow() {
-            self.roll_one_col_indent();
-        }
+        self.roll_one_col_indent();
 
         self.remove_simple_key()?;
         self.allow_simple_key();
@@ -2382,6 +2380,8 @@ impl<'input, T: Input> Scanner<'input, T> {
         }
 
         self.skip_non_blank();
+        // What follows must be indented more than the `?` (see `fetch_value`).
+        self.roll_one_col_indent();
         self.skip_yaml_whitespace()?;
         if self.input.peek() == '\t' {
             return Err(ScanError::new_str(
